@@ -9,3 +9,9 @@ package poly1305
 //@ note Poly1305 tag check (constant-time comparison of the computed tag): not verified; assumed to read its arguments only
 //@ nonnil mac key
 //@ pure
+
+//@ func Sum
+//@ trusted
+//@ note Poly1305 tag of m under key: not verified; assumed to write only *out
+//@ nonnil out key
+//@ modifies *out
